@@ -278,7 +278,11 @@ def run(tier="quick", replay=None):
     R.counts["persisting functions"] = sorted(writer_fns)
 
     # ---- (d) gentle_overwrite contract ---------------------------------------------
-    f = go
+    # helpers that are not themselves writers (e.g. a split-out "same contents?" predicate) are inlined, so that extracting
+    # or folding back such a helper does not change what the contract rules see
+    import inline
+    base_pred = inline.default_pred(prog, go)
+    f = inline.inlined(prog, go, pred=lambda g: base_pred(g) and g.path not in write_family and g.path not in persist_family, depth=2)
     fl = Flow(f)
     from paths import err_assign_blocks
     errb = set(err_assign_blocks(f))
@@ -312,15 +316,40 @@ def run(tier="quick", replay=None):
     if eqs and steps:
         ebb, et = eqs[0]
         sw = None
-        nb = et.get("target")
-        if nb is not None and f.term(nb)["k"] == "switch" and op_local(f.term(nb)["discr"]) == et["dest"]["l"]:
-            sw = f.term(nb)
+        neg = False
+        # the branch that decides on the comparison: the first switch whose discriminant is the equality result, possibly
+        # copied (returned from a helper, stored in a local) and negated on the way
+        state = {et["dest"]["l"]: False}
+        changed = True
+        while changed:
+            changed = False
+            for _, _, st in f.stmts():
+                if st["pl"]["p"]:
+                    continue
+                rv = st["rv"]
+                src_l = None
+                flip = False
+                if rv["k"] == "use":
+                    src_l = op_local(rv["op"])
+                elif rv["k"] == "un" and rv["op"] == "Not":
+                    src_l = op_local(rv["a"])
+                    flip = True
+                if src_l in state and st["pl"]["l"] not in state:
+                    state[st["pl"]["l"]] = state[src_l] != flip
+                    changed = True
+        for b2 in sorted(f.reachable(ebb), key=lambda b: len(f.dominators().get(b, ()))):
+            t2 = f.term(b2)
+            if t2["k"] == "switch" and op_local(t2["discr"]) in state and f.local_ty(op_local(t2["discr"])) == "bool":
+                sw, neg = t2, state[op_local(t2["discr"])]
+                break
         if sw is None:
             R.viol("R19.d", "R19.d|anchor-lost|eq-switch", f.loc(ebb), "anchor lost: equality result is not branched on", fn=f.path)
         else:
             arms = dict((v, tgt) for v, tgt in sw["arms"])
             false_b = arms.get(0, sw["otherwise"])
             true_b = sw["otherwise"] if 0 in arms else arms.get(1)
+            if neg:
+                false_b, true_b = true_b, false_b
             can_reach_eq = {b for b in range(len(f.blocks)) if ebb in f.reachable(b)}
             # before the comparison: no write step may fail the call
             pre_bad = []
@@ -352,11 +381,48 @@ def run(tier="quick", replay=None):
                     fn=f.path)
             # differs / unreadable: result is the persisting step's (or a propagated write-step failure)
             other_starts = [false_b]
+            sw_block = next(b for b in range(len(f.blocks)) if f.blocks[b]["t"] is sw)
+
+            def decision_values(start):
+                """Values the deciding bool can have at the switch on paths from `start` that do not run the comparison
+                (constant propagation of `decision = false` in a failure arm through copies / negation)."""
+                out = set()
+                seen = set()
+                todo = [(start, None)]
+                while todo:
+                    b, val = todo.pop()
+                    if (b, val) in seen:
+                        continue
+                    seen.add((b, val))
+                    if b == ebb:
+                        out.add("any")
+                        continue
+                    for st in f.blocks[b]["s"]:
+                        if st["pl"]["p"] or st["pl"]["l"] not in state:
+                            continue
+                        rv = st["rv"]
+                        if rv["k"] == "use" and rv["op"]["k"] == "const":
+                            c = rv["op"]["c"]
+                            bit = bool(c.get("bool")) if "bool" in c else bool(int(c.get("int", 0)))
+                            val = bit != state[st["pl"]["l"]]      # normalised to "comparison said equal"
+                    if b == sw_block:
+                        out.add("any" if val is None else val)
+                        continue
+                    for nx in f.succ(b):
+                        todo.append((nx, val))
+                return out
             for bb, t in f.calls():
                 if (callee_of(t) or "").endswith("fs::read_to_string") or (callee_of(t) or "").endswith("fs::read"):
                     fr = follow_result(f, bb)
                     if fr:
-                        other_starts.extend(fr["failure"])
+                        for fb in fr["failure"]:
+                            dv = decision_values(fb)
+                            if dv == {False}:
+                                other_starts.append(false_b)       # unreadable => decided "not equal" => same as differs
+                            elif dv == {True}:
+                                other_starts.append(true_b)        # unreadable treated as equal: must still write (checked below)
+                            else:
+                                other_starts.append(fb)
             direct = [bb for bb, t in persisting_steps if t["dest"]["l"] == 0 and not t["dest"]["p"]]
             # errors propagated from write steps are legitimate ends too
             prop = set()
